@@ -219,4 +219,12 @@ class C08d(Obligation):
             ctx.check(out2.value == ('value', 2) and computed == [1, 2], 'otherwise the value is recomputed')
 
 
-OBLIGATIONS = [C08a, C08b, C08c, C08d]
+from obligations.c15 import C15a3  # noqa: E402
+
+
+class C08e(C15a3):
+    id = 'C08.e'
+    title = 'execution budgets spent by an earlier Script never leak into a later one (per-Script detector state)'
+
+
+OBLIGATIONS = [C08a, C08b, C08c, C08d, C08e]
